@@ -123,6 +123,30 @@ MUTANTS = [
      "        storage = 1\n        storage = {1: StorageType.DISK}[storage]",
      "        storage = 1\n        storage = {1: StorageType.RAM}[storage]",
      ["hrevolve._convert_action"], "disk_step"),
+    ("builder_backward_two_steps", "checkpoint_schedules/hrevolve_sequences/revolve.py",
+     'sequence.insert(operation("Backward", [index + 2, index + 1]))',
+     'sequence.insert(operation("Backward", [index + 2, index]))',
+     ["seq.revolve.revolve"], "shape:backward_is_one_step"),
+    ("builder_scalar_for_pair", "checkpoint_schedules/hrevolve_sequences/disk_revolve.py",
+     'sequence.insert(operation("Forward", [0, jmin]))', 'sequence.insert(operation("Forward", jmin))',
+     ["seq.disk_revolve.disk_revolve"], "shape:pair_types_carry_a_pair"),
+    ("hopt_one_slot_costs_swapped", "checkpoint_schedules/hrevolve_sequences/hrevolve.py",
+     "optp[0][l][1] = (l + 1) * ub + l * (l + 1) / 2 * uf + l * rvect[0]",
+     "optp[0][l][1] = (l + 1) * uf + l * (l + 1) / 2 * ub + l * rvect[0]",
+     ["seq.hrevolve.get_hopt_table"], "loop[3]"),
+    ("hopt_first_candidate_skipped", "checkpoint_schedules/hrevolve_sequences/hrevolve.py",
+     "+ optp[k][j - 1][m] for j in range(1, l)])", "+ optp[k][j - 1][m] for j in range(2, l)])",
+     ["seq.hrevolve.get_hopt_table"], "store[9]"),
+    ("hopt_disk_write_dropped", "checkpoint_schedules/hrevolve_sequences/hrevolve.py",
+     "opt[k][l][m] = min(opt[k-1][l][cvect[k-1]], wvect[k] + optp[k][l][m])",
+     "opt[k][l][m] = min(opt[k-1][l][cvect[k-1]], optp[k][l][m])",
+     ["seq.hrevolve.get_hopt_table"], "store[10]"),
+    ("hopt_disk_read_as_ram_read", "checkpoint_schedules/hrevolve_sequences/hrevolve.py",
+     "[j * uf + opt[k][l - j][m - 1] + rvect[k]", "[j * uf + opt[k][l - j][m - 1] + rvect[0]",
+     ["seq.hrevolve.get_hopt_table"], "store[9]"),
+    ("hopt_border_without_guard", "checkpoint_schedules/hrevolve_sequences/hrevolve.py",
+     "        if lmax == 0:\n            continue\n", "",
+     ["seq.hrevolve.get_hopt_table"], "loop[2]"),
 ]
 
 
